@@ -73,6 +73,7 @@ inductive CExpr (τ : Type) where
   | any (cs : List (CExpr τ))       -- `a | b | ..`
   | inv (c : CExpr τ)               -- `~c`
   | tracked (x : Name) (op : Nat) (v : Int)   -- `tracked <op> v`  (0 <, 1 <=, 2 ==, 3 !=, 4 >=, 5 >)
+  | resLevel (r : Name) (op : Nat) (amounts : List Int)   -- `resources <op> {..}`
   deriving Inhabited
 
 /-- what `until(..)` listens to -/
@@ -112,8 +113,8 @@ inductive Stmt (τ : Type) where
   | cPut (c : Name) (v : Int) | cGet (c : Name) | cClose (c : Name) | cIter (c : Name) (maxItems : Nat) (body : List (Stmt τ))
   -- tracked values / resources
   | setTracked (x : Name) (v : Int) | addTracked (x : Name) (v : Int)
-  | borrow (r : Name) (amounts : List Int) (body : List (Stmt τ))
-  | claim (r : Name) (amounts : List Int) (body : List (Stmt τ))
+  | borrow (r : Name) (amounts : List Int) (bind : Name) (body : List (Stmt τ))
+  | claim (r : Name) (amounts : List Int) (bind : Name) (body : List (Stmt τ))
   | resChange (r : Name) (kind : Nat) (amounts : List Int)     -- 0 increase, 1 decrease, 2 set
   | logLevels (r : Name)
   -- pipe / tickers
@@ -209,6 +210,8 @@ inductive CondKind (τ : Type) where
   | done (task : TaskId) (value : Bool) (inverse : CondId)
   | notDone (done : CondId)
   | cmp (x : Name) (op : Nat) (v : Int)
+  /-- comparison of a resource's level vector: `available <op> amounts` (elementwise) -/
+  | resCmp (r : Name) (op : Nat) (amounts : List Int)
   | delay (d : τ)                          -- a `Delay` notification (not a condition)
   | plain                                  -- bare `Notification` (locks, streams, pipes)
   deriving Inhabited
@@ -271,12 +274,15 @@ structure Tracked where
   listeners : List CondId := []            -- comparisons in subscription order
   deriving Inhabited
 
-/-- `Resources` / `Capacities`: levels are vectors (one entry per named resource, sorted by name) -/
+/-- `Resources` / `Capacities` / `BorrowedResources`: levels are vectors (one entry per named
+resource, sorted by name) held in a `Tracked` -/
 structure Res where
   levels : List Int
-  /-- comparison objects `_available >= debits` waiting, in creation order: (cond, debits) -/
-  listeners : List (CondId × List Int) := []
-  capacities : Bool := false
+  /-- comparison objects listening to the level (`Tracked._listeners`), in creation order -/
+  listeners : List CondId := []
+  /-- `BorrowedResources`: the supply it was taken from and the debits (= upper limit) -/
+  parent : Option Name := none
+  debits : List Int := []
   deriving Inhabited
 
 structure Pipe (τ : Type) where
@@ -286,13 +292,21 @@ structure Pipe (τ : Type) where
   subs : List (Nat × τ) := []              -- (identifier, throughput)
   congested : CondId
   nextId : Nat := 0
-  deriving Inhabited
+
+instance {τ : Type} [TimeLike τ] : Inhabited (Pipe τ) :=
+  ⟨{ throughput := none, scale := TimeLike.zero, congested := 0 }⟩
 
 /-! ### Frames: one constructor per control state of the primitives' code -/
 
 inductive Val where
   | unit | int (i : Int) | bool (b : Bool)
   deriving Inhabited, BEq, Repr
+
+/-- what continues once a lock is acquired -/
+inductive LockCont (τ : Type) where
+  | body (stmts : List (Stmt τ))      -- `async with lock:` block
+  | queueGet (q : Name)               -- `Queue._await_message` inside `async with self._read_mutex`
+  deriving Inhabited
 
 inductive Frame (τ : Type) where
   /-- a block of program statements -/
@@ -313,7 +327,7 @@ inductive Frame (τ : Type) where
   /-- returns `true` once the frame above returned (used for awaits that `return True`) -/
   | retTrue
   /-- `Task.__await__`: after `yield from self._done.__await__()` -/
-  | taskResult (t : TaskId)
+  | taskResult (t : TaskId) (quiet : Bool)
   /-- `payload_wrapper`: waiting for the start delay / running the payload -/
   | taskStart (t : TaskId) (delay : Option τ) (at_ : Option τ) (prog : List (Stmt τ))
   | taskPayload (t : TaskId)
@@ -325,8 +339,39 @@ inductive Frame (τ : Type) where
   /-- `try:` marker -/
   | tryBlock (handlers : List (List Pat × List (Stmt τ)))
   /-- lock: waiting in `__aenter__`; body marker -/
-  | lockWait (l : Name) (body : List (Stmt τ))
+  | lockWait (l : Name) (cont : LockCont τ)
   | lockBody (l : Name)
+  /-- `Queue._await_message` after its suspension (postpone on a buffered item / wait for an item) -/
+  | qGetPop (q : Name)
+  /-- statement-level continuation: log the received value -/
+  | gotValue
+  /-- `async for x in queue` (Queue.__aiter__): waiting for the next item / running the body -/
+  | qIterNext (q : Name) (remaining : Nat) (body : List (Stmt τ))
+  | qIterGot (q : Name) (remaining : Nat) (body : List (Stmt τ))
+  /-- `await channel` (Channel.__await__) with its registered buffer -/
+  | cGetWait (c : Name) (key : Nat)
+  /-- `async for x in channel` (Channel.__aiter__) -/
+  | cIterLoop (c : Name) (key : Nat) (remaining : Nat) (body : List (Stmt τ))
+  | cIterWait (c : Name) (key : Nat) (remaining : Nat) (body : List (Stmt τ))
+  /-- `BorrowedResources.__aenter__`: waiting for availability; after `__remove_resources__`;
+  after `__insert_resources__`; body marker; `__aexit__` after its first step -/
+  | borrowWait (r : Name) (b : Name) (body : List (Stmt τ))
+  | borrowRemoved (r : Name) (b : Name) (body : List (Stmt τ))
+  | borrowInserted (r : Name) (b : Name) (body : List (Stmt τ))
+  | borrowBody (r : Name) (b : Name)
+  | borrowExit1 (r : Name) (b : Name) (orig : Option ExnId)
+  | borrowExit2 (orig : Option ExnId)
+  /-- the two coroutines dispatched by `__aexit__` on GeneratorExit -/
+  | resAdjust (r : Name) (amounts : List Int) (insert : Bool)
+  /-- `Pipe.transfer` inside one window (below the `wakeHib` of suspend/postpone) -/
+  | pipeWindow (p : Name) (ident : Nat) (total thr transferred wStart wThr : τ) (congWake : SigId)
+  /-- `interval()` / `delay()` async generators: waiting for the next tick; running the body -/
+  | tickWait (isInterval : Bool) (period last : τ) (remaining : Nat) (body : List (Stmt τ))
+  | tickBody (isInterval : Bool) (period last : τ) (remaining : Nat) (body : List (Stmt τ))
+  /-- `collect()`: awaiting the tasks in argument order after its scope ended -/
+  | collectAwait (todo : List Name) (acc : List Int)
+  /-- marker of a nested `usim.run()`: the caller continues here when the inner loop returns -/
+  | nestedRun
   /-- `payload_wrapper` suspended in its start delay -/
   | taskDelay (t : TaskId) (prog : List (Stmt τ))
   /-- `Scope._close_scope`: closing the (volatile) children one by one; `orig` is the exception
@@ -377,6 +422,14 @@ structure Config where
   debug : Bool := true          -- assertions enabled (`python` vs `python -O`)
   deriving Inhabited
 
+/-- kernel state of an enclosing simulation (nested `run()`) -/
+structure Saved (τ : Type) where
+  time : τ
+  turn : Nat
+  pending : List Activation
+  queue : List (τ × List Activation)
+  ctl : List (ActId × Mode)
+
 structure World (τ : Type) where
   cfg : Config := {}
   time : τ
@@ -406,6 +459,11 @@ structure World (τ : Type) where
   /-- an exception that left `_run_coroutine`: ends `run()` -/
   crashed : Option ExnId := none
   userRaises : Nat := 0
+  resNames : List (Name × Nat) := []
+  /-- kernel states of enclosing simulations while a nested `run()` executes -/
+  saved : List (Saved τ) := []
+  freshName : Nat := 100000
+  nestedRuns : Nat := 0
   deriving Inhabited
 
 end USim.Machine
